@@ -2422,3 +2422,8 @@ package sarama
 //@   loop 1: invariant pd.remaining() >= 0
 //@   ensures[replica_id_restored] e == nil ==> (replicaID >= 0 ==> r.isReplicaIDSet && r.replicaID == replicaID) && (replicaID < 0 ==> r.isReplicaIDSet == old(r.isReplicaIDSet) && r.replicaID == old(r.replicaID))
 //@   nosafety
+
+// (C04) what the broker receives decodes to what was submitted: the relational encode/decode contract for the types
+// a produce request is made of (the request, the records union, record batches and records with their headers,
+// legacy message sets, blocks and messages).
+//@ wiredual props C04: ProduceRequest Records RecordBatch Record RecordHeader MessageSet MessageBlock Message Timestamp
